@@ -65,9 +65,11 @@ def entries():
         for b1 in FLAGS:
             for k1 in KINDS:
                 out.append(("FN1", (f, k1, b1)))
+    # pow(z, w) does not depend on the ieee flags: all 9 closure-kind pairs with equal flags, mixed flags for value closures only
     for b1, b2 in itertools.product(FLAGS, FLAGS):
         for k1, k2 in itertools.product(KINDS, KINDS):
-            out.append(("POWCC", (k1, b1, k2, b2)))
+            if b1 == b2 or (k1 == "KV" and k2 == "KV"):
+                out.append(("POWCC", (k1, b1, k2, b2)))
     for b1 in FLAGS:
         for k1 in KINDS:
             out.append(("POWCS", (k1, b1)))
@@ -237,7 +239,7 @@ def run(ctx):
     bins, enabled, ill, newly = build_all(ctx)
     ctx.note("build (probes + 8 harness parts): %.0fs" % (time.time() - t0))
     thorough = ctx.tier == "thorough"
-    nshard = {"ADDSUB": 8, "MUL": 16, "DIV": 16, "MISC": 40} if thorough else {"ADDSUB": 1, "MUL": 2, "DIV": 2, "MISC": 3}
+    nshard = {"ADDSUB": 6, "MUL": 12, "DIV": 12, "MISC": 30} if thorough else {"ADDSUB": 1, "MUL": 2, "DIV": 2, "MISC": 3}
     deadline = int(time.time() + max(30, ctx.time_left() - 90))
     jobs = []
     # heaviest parts first
@@ -272,7 +274,7 @@ def run(ctx):
         "bit-identity (modulo NaN payload) with the value-closure instantiation and with std::complex for forwarded functions, == decided from the bit patterns, operands/referents after the operation. "
         "evaluations = executions of one instantiation on one operand tuple. distinct_nontrivial = distinct (T, operation, operand form cc/cs/sc, effective ieee flag, operand tuple) combinations - closure kinds NOT counted separately - "
         "that at least one value rule judged and that are non-trivial: for arithmetic both effective operands are not a zero; for ==/!= at least one part compares equal or is NaN; for functions the operand is not a zero; "
-        "for assignment/accessors the written value differs from the old one" % (nv, ", +-min subnormal, 0.1, -pi, sqrt 2, 12345.678, 1e-3, 1-eps/2, the well-scaled limits 2^+-W and 2^(W+1), 2^+-(W/2), the square overflow/underflow thresholds, max/2, -max/4, 1.5*2^(emax-2), pred(max), 4*min, -(2+2eps)*min, -3*denorm_min, -1/7, 5/3, 1.1*2^(W-1), -1.7*2^-(W-1), 1.3*2^(BIG-3), -1.9*2^-(BIG-3)" if thorough else ""))
+        "for assignment/accessors the written value differs from the old one" % (nv, ", +-min subnormal, -max, 0.1, -pi, sqrt 2, 12345.678, -1/7, 5/3, the well-scaled limits 2^+-W and 2^(W+1), 2^+-(W/2), 1.1*2^(W-1), -1.7*2^-(W-1), the square overflow/underflow thresholds, 1.3*2^(BIG-3), -1.9*2^-(BIG-3), max/2, 1.5*2^(emax-2), pred(max), -(2+2eps)*min, -3*denorm_min" if thorough else ""))
     ctx.assumptions += [
         "__float128 (113-bit) complex arithmetic is the exact reference for finite operands; products of two T values are exact in it",
         "well-scaled := every non-zero part has magnitude in [2^-200, 2^200] (double) / [2^-30, 2^30] (float), so no intermediate of the textbook formulas over- or underflows; outside this band the non-IEEE mode is not judged by value",
